@@ -288,6 +288,86 @@ pub fn run_wrappers(w: &mut dyn Write) {
     }
 }
 
+/// long histories: ONE parser value used for `n` parses in a row (thousands, not six): a counter, cache or table that lives in the
+/// parser value and is not reset at a parse boundary shows only after many parses. Recursive handles (built with `recursive()`
+/// and with declare / define, plain, boxed and cloned), a memoized parser and the static parsers of the thread runs; every
+/// result is compared with the result of a freshly built parser on the same input.
+pub fn run_long(n: usize, w: &mut dyn Write) {
+    fn parens() -> impl Parser<'static, &'static str, Val, SE> + Clone {
+        recursive(|p| {
+            p.delimited_by(just('('), just(')')).map(|v: Val| Val::pair(Val::Unit, v)).or(just('x').to(Val::Unit))
+        })
+    }
+    fn mutual() -> impl Parser<'static, &'static str, Val, SE> + Clone {
+        let mut a = chumsky::recursive::Recursive::declare();
+        let mut b = chumsky::recursive::Recursive::declare();
+        a.define(just::<_, &'static str, SE>('(').ignore_then(b.clone()).map(|v: Val| Val::pair(Val::Nat(1), v)).or(just('x').to(Val::Unit)));
+        b.define(a.clone().then_ignore(just(')')).or(just('y').to(Val::Nat(2))));
+        a
+    }
+    fn memo() -> impl Parser<'static, &'static str, Val, SE> + Clone {
+        let inner = just::<_, &'static str, SE>('(').repeated().at_least(1).count().map(|n| Val::Nat(n as u64)).memoized();
+        inner.clone().then_ignore(just('x')).or(inner.then_ignore(just('y'))).then_ignore(any().repeated())
+    }
+    let pool: Vec<&'static str> = vec!["x", "(x)", "((x))", "(", "(x", "", "y", "(((x)))", "((y", "(y)"];
+    fn go<P: Parser<'static, &'static str, Val, SE>>(p: &P, input: &'static str) -> String {
+        let mut st = Insp::default();
+        let (o, errs) = p.parse_with_state(input, &mut st).into_output_errors();
+        let mut s = String::new();
+        match o {
+            Some(v) => v.render(&mut s),
+            None => s.push_str("none"),
+        }
+        for e in errs {
+            s.push('|');
+            <Rich<'static, char, Sp> as HErr<'static, &'static str>>::render(&e, &mut s);
+        }
+        s
+    }
+    macro_rules! long {
+        ($name:expr, $mk:expr) => {{
+            let fresh: Vec<String> = pool.iter().map(|i| go(&$mk, i)).collect();
+            let p = $mk;
+            let mut diffs = 0usize;
+            let mut first = usize::MAX;
+            for step in 0..n {
+                let i = (step * 7 + step / pool.len()) % pool.len();
+                let got = std::panic::catch_unwind(std::panic::AssertUnwindSafe(|| go(&p, pool[i]))).unwrap_or_else(|_| "P panic".to_string());
+                if got != fresh[i] {
+                    diffs += 1;
+                    if first == usize::MAX {
+                        first = step;
+                    }
+                }
+            }
+            let _ = writeln!(w, "L-{} H steps={} diffs={} wrappers=1 first-difference-at-parse={}", $name, n, diffs, if first == usize::MAX { -1 } else { first as i64 });
+        }};
+    }
+    long!("recursive", parens());
+    long!("recursive-boxed", parens().boxed());
+    long!("recursive-clone", { let q = parens(); q.clone() });
+    long!("declared-mutual", mutual());
+    long!("memoized", memo());
+    long!("rc", Rc::new(parens()));
+    for (name, p) in static_parsers() {
+        let pool2: Vec<&'static str> = vec!["", "a", "a,b", "a,b,", "ab", "abc;", "::", "(ab)", "(", "x"];
+        let fresh: Vec<String> = pool2.iter().map(|i| run_static(&p, i)).collect();
+        let mut diffs = 0usize;
+        let mut first: i64 = -1;
+        for step in 0..n {
+            let i = (step * 3 + step / pool2.len()) % pool2.len();
+            let got = run_static(&p, pool2[i]);
+            if got != fresh[i] {
+                diffs += 1;
+                if first < 0 {
+                    first = step as i64;
+                }
+            }
+        }
+        let _ = writeln!(w, "L-{} H steps={} diffs={} wrappers=1 first-difference-at-parse={}", name, n, diffs, first);
+    }
+}
+
 pub fn run_threads(nthreads: usize, rounds: usize, w: &mut dyn Write) {
     let pool: Vec<&'static str> = vec!["", "a", "a,b", "a,b,", "ab", "abc;", "::", "(ab)", "(", "x", "a,", "(aab", "é", "abc"];
     for (name, p) in static_parsers() {
@@ -347,6 +427,11 @@ pub fn main() {
         }
         if line.trim() == "WRAPPERS" {
             run_wrappers(&mut w);
+            continue;
+        }
+        if let Some(rest) = line.strip_prefix("LONG ") {
+            let n: usize = rest.trim().parse().unwrap_or(3000);
+            run_long(n, &mut w);
             continue;
         }
         if let Some(rest) = line.strip_prefix("THREADS ") {
